@@ -80,7 +80,7 @@ def gen_chains(cfg="ChainGen_q.cfg", timeout=600):
 
 def decorate(scs, *, seed, calls_choices=(("invoke",), ("stream",), ("invoke", "stream"), ("stream", "invoke")),
              snode_frac=0.35, strm_branch_frac=0.3, noid_frac=0.0, state_frac=0.0, fail_variants=False, state_variants=False,
-             delay_frac=0.5, echo_frac=0.0, wrap_frac=0.3):
+             delay_frac=0.5, echo_frac=0.0, wrap_frac=0.3, rmax_frac=0.0):
     """Secondary dimensions that TLC does not enumerate are spread deterministically (seeded) over the scenarios."""
     rnd = random.Random(seed)
     for i, sc in enumerate(scs):
@@ -91,6 +91,9 @@ def decorate(scs, *, seed, calls_choices=(("invoke",), ("stream",), ("invoke", "
             b["strm"] = rnd.random() < strm_branch_frac
         if noid_frac and rnd.random() < noid_frac:
             sc["noid"] = True
+        if rmax_frac and sc["mode"] == "pregel" and rnd.random() < rmax_frac:
+            # a per-call step limit (WithRuntimeMaxSteps) overrides the compiled one for the top-level graph, at every call of the run
+            sc["rmax"] = 1 + rnd.randrange(len(sc["nodes"]) + 3)
         if state_frac and not sc.get("state") and rnd.random() < state_frac:
             sc["state"] = True
         if sc["mode"] in ("wf", "dag") and len(sc["nodes"]) > 1 and rnd.random() < delay_frac:
